@@ -49,6 +49,9 @@ def corpora(rng, tier):
         files, entries, names = bldgen.c17_dedup_corpus(random.Random(rng.randrange(1 << 30)), n_modules=rng.choice([8, 10, 12]))
         out.append(dict(name="dedup%d" % i, kind="thrift", files=files, entries=entries, dedup=names, threads=[1, 2, 16, 1, 2, 2, 1, 16],
                         flags=["--no-ignore-unused"]))
+    # split-mode file names: case-colliding names of every kind together with the literal suffixed forms
+    for i, (name, sd) in enumerate(bldgen.split_name_docs()[:1 if tier == "quick" else 3]):
+        out.append(dict(name="splitnames%d" % i, kind="thrift", files=sd.texts(), entries=["main.thrift"], flags=["--no-ignore-unused"] + (["--no-change-case"] if i else [])))
     for i in range(n_pb):
         files = bldgen.c17_proto_corpus(random.Random(rng.randrange(1 << 30)), n_top=rng.choice([4, 6]), n_nested=rng.choice([4, 6]))
         out.append(dict(name="proto%d" % i, kind="pb", files=files, entries=["p0.proto", "p1.proto"],
